@@ -242,6 +242,8 @@ def lit_json(lit):
             return {"bytes_hex": bytes(x).hex()}
         if isinstance(x, str):
             return {"str_codepoints": [ord(c) for c in x]} if not x.isascii() or not x.isprintable() else x
+        if isinstance(x, tuple):
+            return lit_json(x)
         return x
     return [j(x) for x in lit]
 
@@ -364,13 +366,45 @@ class Oracle:
             out = []
             for l in lits:
                 out += self.check_group([l], mode)
-            if not out:   # only the combination fails: report the group
-                out = [(lits[0], "[%s] literals read back correctly alone but not in sequence" % tag, teal)]
+            if not out:   # only the combination fails: minimise the group and report it
+                grp = list(lits)
+                i = 0
+                while len(grp) > 2 and i < len(grp):
+                    cand = grp[:i] + grp[i + 1:]
+                    if self.group_fails(cand, mode):
+                        grp = cand
+                    else:
+                        i += 1
+                g2 = self.group_fails(grp, mode)
+                out = [(("group",) + tuple(grp), "[%s] each literal reads back correctly alone but not together: %s" % (tag, g2 or "?"), teal)]
             return out
         shown = got if isinstance(got, str) else got[:-1][:3]
         return [(lits[0], "[%s] program text reads as %r, expected push of %r" % (tag, shown, exps[0]), teal)]
 
     mode = (False, 1)
+
+    def group_fails(self, lits, mode):
+        """None if the program with these literals reads back site by site as each literal's own denotation,
+        else a description (no fallback to single literals)."""
+        import pyteal as pt
+        asmc, reps = mode
+        exps = [expected_value(l) for l in lits]
+        msel = [(l[1], e[1]) for l, e in zip(lits, exps) if l[0] == "method"]
+        r = call_real(lambda: pt.compileTeal(pt.Seq(*[pt.Pop(build_real(l)) for l in lits for _ in range(reps)], pt.Approve()),
+                                             pt.Mode.Application, version=6, assembleConstants=asmc))
+        if r[0] != "ok":
+            return "does not compile: %s" % (r[1],)
+        got = self.resolve(self.read_program(r[1], msel), not asmc)
+        want = [e for e in exps for _ in range(reps)] + [("int", 1)]
+        if got == want:
+            return None
+        if isinstance(got, str):
+            return got
+        sites = [l for l in lits for _ in range(reps)]
+        for k, (g, w) in enumerate(zip(got, want)):
+            if g != w and k < len(sites):
+                return "site %d (%s %r) pushes %r, its constructor denotes %r; program:\n%s" % (k + 1, sites[k][0], sites[k][-1] if not isinstance(sites[k][-1], (bytes, bytearray)) else sites[k][-1].hex(), g, w, r[1])
+        return "program reads as %r, expected %r" % (got, want)
 
     def run(self, lits, group=16, modes=None):
         """lits: well-formed literals.  Collect failures (each: literal, what, teal) under every compile flavour."""
@@ -682,7 +716,7 @@ def main(argv):
         ck.sample({"kind": "Bytes(str)", "codepoints": [ord(c) for c in s], "teal": real_line(pt.Bytes, s)[1]})
 
     # semantic oracle on Bytes(str): real compileTeal text -> extracted assembler -> bytes, vs s.encode('utf-8')
-    sem_strs = corpus + one + rng.sample(two, 6000 if thorough else 1500) + [chr(c) for c in rng.sample(cps, 3000 if thorough else 600)] + rnd
+    sem_strs = corpus + one + rng.sample(two, 6000 if thorough else 1500) + [chr(c) for c in rng.sample(cps, 3000 if thorough else 600)] + (rnd if thorough else rnd[:4000])
     sem_strs += ["\\" + chr(c) for c in range(256)] + [chr(c) + "\\" for c in range(256)] + ["\\\\" + chr(c) for c in range(256)]
     sem_strs += ["\\" + a + b for a in "'\"ntx0179uUN\\" for b in "'\"nt4017\\ "]
     sem_strs = [s for s in sem_strs if expected_value(("utf8", s)) is not None]
@@ -749,7 +783,7 @@ def main(argv):
                 fails.append((l, "well-formed %s literal rejected with %s" % (l[1], rl[1]), None))
         elif rl[0] == "ok":
             fails.append((l, "malformed %s literal accepted and emitted as %r" % (l[1], rl[1]), None))
-    fails += oracle.run([l for l in well if all(ord(c) < 128 for c in l[2])][: (20000 if thorough else 5000)])
+    fails += oracle.run([l for l in well if all(ord(c) < 128 for c in l[2])][: (20000 if thorough else 3000)])
     # the validator functions themselves
     for name, fn, cmd in (("valid_base16", ptypes.valid_base16, "valid16"), ("valid_base32", ptypes.valid_base32, "valid32"),
                           ("valid_base64", ptypes.valid_base64, "valid64"), ("valid_address", ptypes.valid_address, "validaddr")):
@@ -894,6 +928,38 @@ def main(argv):
             ck.model_problem("selector oracle disagrees with algosdk.abi on %r" % s)
     tally("method-abi-valid", n_abi)
     fails += oracle.run(good_sigs[:400])
+    # literals of DIFFERENT kinds whose operand texts coincide or nearly coincide, in both orders, under every compile
+    # flavour: each site must push ITS OWN constructor's denotation (Bytes(s) vs MethodSignature(s): both `"s"`)
+    from algosdk import encoding as _enc
+    twins = []
+    plain_sigs = [l[1] for l in good_sigs if l[1].isascii() and l[1].isprintable()]
+    for t in (["transfer(address,uint64)void", "a", "0x6162", "5", "base64(YWI=)"] + plain_sigs)[: (400 if thorough else 120)]:
+        twins.append([("utf8", t), ("method", t)])
+    for h in ("6162", "00", "", "ff" * 8):
+        twins.append([("utf8", "0x" + h), ("base", "base16", h)])
+        twins.append([("utf8", "0x" + h), ("base", "base16", "0x" + h)])
+        twins.append([("method", "0x" + h), ("base", "base16", h)])
+        twins.append([("raw", bytes.fromhex(h)), ("base", "base16", h), ("utf8", h)])
+    for bt, txt in (("base64", "YWI="), ("base32", "MFRA"), ("base32", "MFRA====")):
+        twins.append([("utf8", "%s(%s)" % (bt, txt)), ("base", bt, txt)])
+        twins.append([("method", "%s(%s)" % (bt, txt)), ("base", bt, txt)])
+        twins.append([("utf8", txt), ("base", bt, txt), ("method", txt)])
+    for l in good_addrs[:6]:
+        twins.append([("utf8", l[1]), l])
+        twins.append([("method", l[1]), l])
+        twins.append([("base", "base32", l[1]), l])
+        twins.append([("raw", _enc.decode_address(l[1])), l])
+    for n in (0, 1, 5, 255, U64 - 1):
+        twins.append([("utf8", str(n)), ("int", n)])
+        twins.append([("method", str(n)), ("int", n), ("raw", n.to_bytes(8, "big"))])
+    n_tw = 0
+    for tw in twins:
+        for order in (tw, tw[::-1]):
+            for md in Oracle.MODES:
+                n_tw += 1
+                ck.count(("twins", repr(order), md))
+                fails += oracle.check_group(list(order), md)
+    tally("coinciding-operand-text-programs", n_tw)
     # mixed programs: literals of all kinds in sequence
     pool = [("utf8", s) for s in rnd[:400]] + well[:400] + good_ints[:200] + good_addrs[:100] + good_sigs[:100]
     pool = [l for l in pool if not (l[0] == "base" and not all(ord(c) < 128 for c in l[2]))]
@@ -999,6 +1065,15 @@ def replay(path, model, oracle):
         return 0
     lit = tuple(unj(x) for x in d["literal"])
     print("literal:", lit)
+    if lit[0] == "group":
+        lits = [tuple(unj(x) for x in l) for l in lit[1:]]
+        md = d.get("mode")
+        bad = 0
+        for m in ([(md["assembleConstants"], md["uses"])] if md else Oracle.MODES):
+            r = oracle.group_fails(lits, m)
+            print("[%s]" % Oracle.mode_tag(m), "reads back correctly" if r is None else r)
+            bad |= r is not None
+        return 1 if bad else 0
     if lit[0] == "validator":
         print("real:", real_valid(getattr(__import__("pyteal").types, lit[1]), lit[2]))
         return 0
